@@ -217,9 +217,11 @@ impl Chooser for Script {
     }
 }
 
-/// no scenario of the harness needs more than a few hundred thousand stream calls or more than 100 MiB of stream
-pub const CALL_BUDGET: usize = 3_000_000;
-pub const DATA_BUDGET: usize = 200 << 20;
+/// default budgets of a controlled stream (livelock guard). The most expensive honest scenario is C18's thorough-tier
+/// archive of 5.2 million entries through the async writer, whose uncompressed directories are written varint by
+/// varint: about 6 x 10^7 calls and 71 MB. Scenarios with slow sinks set much tighter budgets (`Handle::budget`).
+pub const CALL_BUDGET: usize = 1_000_000_000;
+pub const DATA_BUDGET: usize = 1 << 30;
 
 pub struct Core {
     pub data: Vec<u8>,
